@@ -513,35 +513,54 @@ func c04Registration(p *Prog, r *Report) {
 }
 
 func c04Order(p *Prog, r *Report) {
-	decls := p.Func(Mod, "Ctx.Decls")
-	if decls == nil {
-		r.Anchor("R04c", "goose.Ctx.Decls")
-		return
+	// the emission function, found by role: a function (closure or method) of the translator that calls
+	// itself, tests and sets a map[…]bool keyed by one of its parameters, and appends to the output
+	isSelfCall := func(a *ssa.Function, c *ssa.Call) bool {
+		if calleeOf(&c.Call) == a {
+			return true
+		}
+		if ld, ok := c.Call.Value.(*ssa.UnOp); ok {
+			if fv, ok := ld.X.(*ssa.FreeVar); ok {
+				if _, isSig := deref(fv.Type()).Underlying().(*types.Signature); isSig {
+					return true
+				}
+			}
+		}
+		return false
 	}
-	// the closure that calls itself and appends to the captured result
 	var pd *ssa.Function
-	for _, a := range decls.AnonFuncs {
-		self := false
+	for _, a := range p.FuncsIn(Mod) {
+		self, boolMap, app := false, false, false
 		p.instrs(a, func(b *ssa.BasicBlock, i int, in ssa.Instruction) {
-			if c, ok := in.(*ssa.Call); ok {
-				// recursive call through the captured variable holding the closure
-				if ld, ok := c.Call.Value.(*ssa.UnOp); ok {
-					if fv, ok := ld.X.(*ssa.FreeVar); ok {
-						if _, isSig := deref(fv.Type()).Underlying().(*types.Signature); isSig {
-							self = true
+			switch x := in.(type) {
+			case *ssa.Call:
+				if isSelfCall(a, x) {
+					self = true
+				}
+				if bi, ok := x.Call.Value.(*ssa.Builtin); ok && bi.Name() == "append" {
+					app = true
+				}
+			case *ssa.MapUpdate:
+				if mt, ok := x.Map.Type().Underlying().(*types.Map); ok {
+					if b, ok := mt.Elem().Underlying().(*types.Basic); ok && b.Kind() == types.Bool {
+						for _, pa := range a.Params {
+							if sk(x.Key) == pa.Name() {
+								boolMap = true
+							}
 						}
 					}
 				}
 			}
 		})
-		if self {
+		if self && boolMap && app {
 			pd = a
 		}
 	}
 	if pd == nil {
-		r.Anchor("R04c", "the recursive emission closure inside Decls")
+		r.Anchor("R04c", "the recursive emission function (calls itself, marks a map[id]bool, appends to the output)")
 		return
 	}
+	decls := pd.Parent() // closure: the top-level visits are made by the enclosing function
 	r.Func(FuncName(pd))
 	rm := p.Rels(pd)
 	var recs []*ssa.Call
@@ -552,10 +571,8 @@ func c04Order(p *Prog, r *Report) {
 	p.instrs(pd, func(b *ssa.BasicBlock, i int, in ssa.Instruction) {
 		switch x := in.(type) {
 		case *ssa.Call:
-			if ld, ok := x.Call.Value.(*ssa.UnOp); ok {
-				if _, ok := ld.X.(*ssa.FreeVar); ok {
-					recs = append(recs, x)
-				}
+			if isSelfCall(pd, x) {
+				recs = append(recs, x)
 			}
 			if bi, ok := x.Call.Value.(*ssa.Builtin); ok && bi.Name() == "append" {
 				appends = append(appends, in)
@@ -578,6 +595,12 @@ func c04Order(p *Prog, r *Report) {
 		}
 	})
 	idP := pd.Params[0]
+	idIdx := 0
+	for i, pa := range pd.Params {
+		if genSet != nil && sk(genSet.Key) == pa.Name() {
+			idP, idIdx = pa, i
+		}
+	}
 	okTS := genLookup != nil && genSet != nil && sk(genLookup.Index) == idP.Name() && sk(genSet.Key) == idP.Name()
 	if okTS {
 		for _, c := range recs {
@@ -619,10 +642,10 @@ func c04Order(p *Prog, r *Report) {
 			fmt.Sprintf("the recursive call is guarded by additional conditions %v: a dependency can be skipped and its definition emitted after its user", extra))
 		// argument is the declaration found for the dependency
 		okArg := false
-		if ex, ok := c.Call.Args[0].(*ssa.Extract); ok && nameLk != nil && ex.Tuple == ssa.Value(nameLk) && ex.Index == 0 {
+		if ex, ok := c.Call.Args[idIdx].(*ssa.Extract); ok && nameLk != nil && ex.Tuple == ssa.Value(nameLk) && ex.Index == 0 {
 			okArg = true
 		}
-		r.Check("R04c", "the visited declaration is the one that defines the dependency", instrPos(c), okArg, "argument "+sk(c.Call.Args[0]))
+		r.Check("R04c", "the visited declaration is the one that defines the dependency", instrPos(c), okArg, "argument "+sk(c.Call.Args[idIdx]))
 		for _, a := range appends {
 			if reachesInstr(a, c) {
 				r.Fail("R04c", "dependencies are emitted before the dependant", instrPos(a), "an append to the output can be followed by the visit of a dependency: the dependant is emitted first", "")
@@ -635,21 +658,33 @@ func c04Order(p *Prog, r *Report) {
 	// the dependency loop iterates over all of declDeps[id]
 	// outer loops: processDecl(declId{fi, di}, "") for every index
 	var outer []*ssa.Call
-	p.instrs(decls, func(b *ssa.BasicBlock, i int, in ssa.Instruction) {
-		if c, ok := in.(*ssa.Call); ok {
-			if ld, ok := c.Call.Value.(*ssa.UnOp); ok {
+	for _, g := range p.FuncsIn(Mod) {
+		if g == pd {
+			continue
+		}
+		p.instrs(g, func(b *ssa.BasicBlock, i int, in ssa.Instruction) {
+			c, ok := in.(*ssa.Call)
+			if !ok {
+				return
+			}
+			if calleeOf(&c.Call) == pd {
+				outer = append(outer, c)
+				return
+			}
+			if ld, ok := c.Call.Value.(*ssa.UnOp); ok && g == decls {
 				if a, ok := ld.X.(*ssa.Alloc); ok {
 					if _, isSig := deref(a.Type()).Underlying().(*types.Signature); isSig {
 						outer = append(outer, c)
 					}
 				}
 			}
-		}
-	})
+		})
+	}
 	okOuter := len(outer) == 1
 	why := fmt.Sprintf("%d top-level visits", len(outer))
 	if okOuter {
-		rmD := p.Rels(decls)
+		og := outer[0].Parent()
+		rmD := p.Rels(og)
 		rs := p.RelsAt(rmD, outer[0])
 		for k := range rs {
 			if !isLoopBoundFact(k) {
@@ -657,6 +692,10 @@ func c04Order(p *Prog, r *Report) {
 				why = "the top-level visit is conditional on " + k
 			}
 		}
+		decls = og
+	}
+	if decls == nil {
+		decls = pd
 	}
 	r.Check("R04c", "every (file, declaration) is visited", decls.Pos(), okOuter, why)
 }
